@@ -32,6 +32,22 @@ CLAIMS = {
             "open reader is re-dumped after every step against the reference.",
             "the contract (c1-c8) is a premise validated on each real commit (decoded files + hooks), not derived from the B+tree code",
             "Coq invariant proof over an executable acceptor + hook-driven trace acceptance", "6/C03, App. E"),
+    "C04": ("proof",
+            "Coq (ConcFacts): in the thread-level transition system of the lock protocol, for any number of threads and every "
+            "schedule, every active reader's snapshot is intact and is the header current when it registered; the pinned protocol "
+            "(header read and registration in two steps) is refuted by a 23-step schedule; the GENERATED flag begin_atomic ties the "
+            "theorem to the source; scheduled runs of the real library (all <=2-preemption schedules at the coarse yield set for 1 reader "
+            "vs 2 writers, sampled beyond) are judged by an oracle on what readers saw and replayed step by step in the extracted system.",
+            "the transition system abstracts pages to snapshot ids (release bound / overwrite bound); memory-map validity ('inside the map it "
+            "holds') is not modelled; RwLock fairness nondeterministic",
+            "Coq invariant proof over an executable LTS + hook-driven schedule enumeration with conformance replay", "6/C04, App. F"),
+    "C09": ("proof",
+            "Coq (ConcFacts): writer mutual exclusion, a writer's header stays current until it writes its own (no lost update), every "
+            "commit increments the header id by one, and deadlock freedom (some unfinished thread can always step) for any number of "
+            "threads and every schedule; liveness under fairness is not formalised beyond deadlock freedom; scheduled runs of the real "
+            "library incl. file growth with readers holding the map: all threads finish, overlap flag, generations, conformance replay.",
+            "std::sync lock semantics assumed; liveness = deadlock freedom only",
+            "Coq invariant proof over an executable LTS + scheduled runs with conformance replay", "6/C09, App. F"),
     "C05": ("proof",
             "Coq (PLFacts.partition / accept_inv; CodecFacts; Tree.inv_check): the page-lifecycle invariant gives 'every page below the "
             "high-water mark is exactly one of live / free / pending'; inv_check (extracted, run on EVERY committed file) checks the "
